@@ -105,6 +105,9 @@ class WbMemHarness(Harness):
             for mk in (self.marks if we else (0,)):
                 ops.append(("bw" if we else "br", a, (1 << self.nl) - 1, mk, kind, n))
         self.ops = ops
+        top = max([a for a in self.adrs] + [self.beat_adr((None, a, 0, 0, kind, n), n - 1) for (we, a, kind, n) in self.p.get("bursts", ())])
+        if top >= (1 << len(d.master.adr)) or (top + 1) * self.nl > self.nbytes:
+            raise MachineryError(f"{self.name}: address {top} of the menu lies outside the {len(d.master.adr)}-bit / {self.nbytes}-byte space of this configuration")
 
     def init_byte(self, a):
         if self.kind == "sram":
@@ -369,7 +372,7 @@ reg("Cache(size=2,16/16)+SRAM,2marks,depth5", "thorough", kind="cache", mw=16, s
 reg("Cache(size=2,16/16)+SRAM,2marks", "thorough", kind="cache", mw=16, sw=16, adrs=(0, 2, 4), sels=(0b01, 0b11), cachesize=2, backing="sram", nbytes=16, cap=3_000_000)
 reg("Cache(size=4,16/32)+SRAM,2marks,depth4", "thorough", kind="cache", mw=16, sw=32, adrs=(0, 1, 8, 9), sels=(0b01, 0b11, 0b10), cachesize=4, backing="sram", nbytes=32, depth=4)
 reg("Cache(size=2,32/16)+SRAM,2marks,depth4", "thorough", kind="cache", mw=32, sw=16, adrs=(0, 2, 4), sels=(0b0001, 0b1111, 0b0110), cachesize=2, backing="sram", nbytes=32, depth=4)
-reg("Cache(size=8,16/64)+SRAM", "thorough", kind="cache", mw=16, sw=64, adrs=(0, 3, 16, 19), sels=(0b01, 0b11), cachesize=8, backing="sram", nbytes=64, marks=(1,))
+reg("Cache(size=8,16/64)+SRAM", "thorough", kind="cache", mw=16, sw=64, adrs=(0, 3, 8, 11), sels=(0b01, 0b11), cachesize=8, backing="sram", nbytes=32, marks=(1,))
 reg("Cache(size=2,16/16)+SRAM+nonzero_backing", "quick", kind="cache", mw=16, sw=16, adrs=(0, 2), sels=(0b11,), cachesize=2, backing="sram", nbytes=16, depth=3, nonzero=True)
 
 
